@@ -43,7 +43,7 @@ def run(tier: str) -> int:
     from pest import Pair, RuleFrame, Stream  # noqa: PLC0415
 
     thorough = tier == "thorough"
-    maxtoks = 6 if not thorough else 8
+    maxtoks = 6 if not thorough else 7
     cfg = write_cfg("OpExpr", "Spec", {"MaxToks": maxtoks, "MaxPrec": 4, "PostfixGuard": "TRUE"}, invariants=["Unique", "PrattCorrect", "Emit"])
     frames: dict[str, object] = {}
     n_tables = 0
